@@ -906,6 +906,177 @@ Proof.
   tauto.
 Qed.
 
+Lemma ordered_app_l l l' : ordered (l ++ l') -> ordered l.
+Proof.
+  induction l as [|a l IH]; simpl; auto. intros [F O]. apply Forall_app in F as [F _]. auto.
+Qed.
+
+Theorem fifo_observable cfg pre ths sch :
+  atomic_create cfg = true -> NoDup pre -> Forall initial_th ths ->
+  let s := run cfg sch (init pre ths) in
+  (forall t p pc got, nth_error (thr s) t = Some (TSub p pc got) -> ordered got) /\
+  (forall q c l, nth_error (heap s) q = Some (c, l) -> ordered l) /\
+  (forall t p pc got q c l m m', nth_error (thr s) t = Some (TSub p pc got) ->
+     nth_error (heap s) q = Some (c, l) -> In m got -> In m' l -> before m m').
+Proof.
+  intros HA N F s. destruct (fifo_run cfg pre ths sch HA N F) as [Q Hd X K]. fold s in Q, Hd, X, K.
+  split; [|split].
+  - intros t p pc got H. apply nth_error_In in H. specialize (Hd _ H). unfold held_of in Hd. simpl in Hd.
+    eapply ordered_app_l; eauto.
+  - exact Q.
+  - intros t p pc got q c l m m' H Hq Hm Hm'. apply nth_error_In in H.
+    eapply (X _ _ _ _ m m' H Hq); auto. unfold held_of. simpl. apply in_or_app; auto.
+Qed.
+
+(* ---------------------------------------------------------------------------------- *)
+(* 6. drain: once all publishers have finished, a subscription that terminates has      *)
+(*    emptied every matching channel (other subscribers may keep running)               *)
+
+Definition quiescent (s : state) : Prop := Forall (fun th => pub_finished th = true) (thr s).
+
+Definition emptied (s : state) (p : pat) (R : list qid) : Prop :=
+  forall c q, In (c, q) (dict s) -> ~ In q R -> fnmatchb c p = true -> queue_of (heap s) q = [].
+
+Definition pc_inv (s : state) (p : pat) (pc : spc) : Prop :=
+  match pc with
+  | SStart | SYield _ | SCheck (Some _) _ | SCrashed => True
+  | SScan rest | SCheck None rest => emptied s p (map snd rest)
+  | SMatch _ q rest | SWith q rest => emptied s p (q :: map snd rest)
+  | SDone => emptied s p []
+  | SPopDo _ _ _ => False
+  end.
+
+Lemma emptied_mono s s' p R :
+  dict s' = dict s -> (forall q, queue_of (heap s) q = [] -> queue_of (heap s') q = []) ->
+  emptied s p R -> emptied s' p R.
+Proof. intros D M E c q H. rewrite D in H. intros. apply M. eapply E; eauto. Qed.
+
+Lemma pc_inv_mono s s' p pc :
+  dict s' = dict s -> (forall q, queue_of (heap s) q = [] -> queue_of (heap s') q = []) ->
+  pc_inv s p pc -> pc_inv s' p pc.
+Proof.
+  intros D M. destruct pc as [| | | | | [m|] | | |]; simpl; auto; apply emptied_mono; auto.
+Qed.
+
+Lemma scan_next_inv s p l : emptied s p (map snd l) -> pc_inv s p (scan_next l).
+Proof. destruct l as [|[c q] r]; simpl; auto. Qed.
+
+Lemma queue_of_pop (h : list (chan * list msg)) q c m l q' :
+  nth_error h q = Some (c, m :: l) -> queue_of h q' = [] -> queue_of (set_nth q (c, l) h) q' = [].
+Proof.
+  intros H E. unfold queue_of in *. destruct (Nat.eq_dec q q') as [->|N].
+  - rewrite H in E. discriminate.
+  - rewrite nth_error_set_nth_neq by auto. exact E.
+Qed.
+
+(* any step in a quiescent state: the table is unchanged, empty queues stay empty *)
+Lemma quiet_step cfg s t e s' :
+  quiescent s -> step cfg s t e = Some s' ->
+  quiescent s' /\ dict s' = dict s /\ (forall q, queue_of (heap s) q = [] -> queue_of (heap s') q = []).
+Proof.
+  intros Qs H. destruct (step_inv _ _ _ _ _ H) as [th [h [d [a [th' [Ht [St ->]]]]]]].
+  assert (Pf : pub_finished th = true).
+  { unfold quiescent in Qs. rewrite Forall_forall in Qs. apply Qs. eapply nth_error_In; eauto. }
+  inv_step St; simpl in Pf; try discriminate; simpl;
+    (split; [apply Forall_set_nth; auto|split; [reflexivity|]]); auto;
+    intros q'; eapply queue_of_pop; eauto.
+Qed.
+
+Record drain_inv (t : tid) (p : pat) (s : state) : Prop := mkDrain {
+  dr_wf : wf s;
+  dr_quiet : quiescent s;
+  dr_pc : exists pc got, nth_error (thr s) t = Some (TSub p pc got) /\ pc_inv s p pc
+}.
+
+Theorem drain_step cfg t p s t' e s' :
+  locked_ops cfg = true -> drain_inv t p s -> step cfg s t' e = Some s' -> drain_inv t p s'.
+Proof.
+  intros HL [W Qs [pc [got [Ht I]]]] H.
+  destruct (quiet_step _ _ _ _ _ Qs H) as [Qs' [D M]].
+  pose proof (wf_step _ _ _ _ _ W H) as W'.
+  constructor; auto.
+  destruct (Nat.eq_dec t' t) as [->|N].
+  2:{ exists pc, got. split; [|eapply pc_inv_mono; eauto].
+      destruct (step_inv _ _ _ _ _ H) as [th [h [d [a [th' [Ht' [St ->]]]]]]]. simpl.
+      rewrite nth_error_set_nth_neq by auto. exact Ht. }
+  (* the draining subscription itself moves *)
+  pose proof (wf_dict _ W) as WD.
+  assert (WT : thread_ok (heap s) (TSub p pc got)).
+  { pose proof (wf_thr _ W) as F. rewrite Forall_forall in F. apply F. eapply nth_error_In; eauto. }
+  destruct (step_inv _ _ _ _ _ H) as [th [h [d [a [th' [Ht' [St E]]]]]]].
+  rewrite Ht in Ht'. inversion Ht'; subst th. clear Ht'.
+  assert (Hn : forall pc' got', th' = TSub p pc' got' -> pc_inv s' p pc' ->
+               exists pc got, nth_error (thr s') t = Some (TSub p pc got) /\ pc_inv s' p pc).
+  { intros pc' got' -> X. exists pc', got'. split; auto. rewrite E. simpl. eapply nth_error_set_nth_eq; eauto. }
+  assert (Same : forall R, emptied s p R -> emptied s' p R) by (intros; eapply emptied_mono; eauto).
+  inv_step St; simpl in I; try contradiction; try congruence;
+    try (eapply Hn; [reflexivity|]; simpl; auto; fail).
+  - (* for, from start *)
+    eapply Hn; [reflexivity|]. apply scan_next_inv. intros c q Hin Hn'. exfalso. apply Hn'.
+    simpl in Hin. apply (in_map snd) in Hin. exact Hin.
+  - (* for, continuing *)
+    eapply Hn; [reflexivity|]. apply scan_next_inv. apply Same. exact I.
+  - (* no match *)
+    eapply Hn; [reflexivity|]. simpl. apply Same.
+    intros c' q' Hin Hn' Hm. apply (I c' q' Hin); auto. intros [<-|X]; [|auto].
+    destruct WT as [_ [T _]]. unfold pairs_ok in WD. rewrite Forall_forall in WD. specialize (WD _ Hin). simpl in WD.
+    rewrite T in WD. inversion WD; subst. congruence.
+  - (* pop of an empty queue *)
+    eapply Hn; [reflexivity|]. simpl. apply Same.
+    intros c' q' Hin Hn' Hm. destruct (Nat.eq_dec q q') as [<-|Nq].
+    + unfold queue_of. rewrite Heqo. reflexivity.
+    + apply (I c' q' Hin); auto. intros [X|X]; auto.
+Qed.
+
+Theorem drain_complete_run cfg s t p got0 sch :
+  locked_ops cfg = true -> wf s -> quiescent s -> nth_error (thr s) t = Some (TSub p SStart got0) ->
+  let s' := run cfg sch s in
+  forall got, nth_error (thr s') t = Some (TSub p SDone got) ->
+  forall c q, In (c, q) (dict s') -> fnmatchb c p = true -> queue_of (heap s') q = [].
+Proof.
+  intros HL W Qs Ht s' got H c q Hin Hm.
+  assert (D : drain_inv t p s').
+  { apply (run_invariant cfg (drain_inv t p)); [intros; eapply drain_step; eauto|].
+    constructor; auto. exists SStart, got0. simpl. auto. }
+  destruct D as [_ _ [pc [got' [Ht' I]]]]. fold s' in Ht'. rewrite H in Ht'. inversion Ht'; subst.
+  simpl in I. apply (I c q); auto.
+Qed.
+
+Lemma run_app cfg a b s : run cfg (a ++ b) s = run cfg b (run cfg a s).
+Proof. unfold run. apply fold_left_app. Qed.
+
+Lemma flat_map_nil {A B} (f : A -> list B) l : (forall x, In x l -> f x = []) -> flat_map f l = [].
+Proof. induction l as [|a l IH]; simpl; auto. intro H. rewrite H by auto. apply IH; auto. Qed.
+
+(* after all publishers finished, a `*` subscription that (re)starts its scan and runs to the end --
+   under any interleaving with the other subscriptions -- leaves nothing behind: everything that was
+   ever appended has been delivered, exactly once *)
+Theorem drain_everything cfg pre ths sch1 sch2 t got0 :
+  atomic_create cfg = true -> locked_ops cfg = true -> Forall initial_th ths ->
+  let s1 := run cfg sch1 (init pre ths) in
+  quiescent s1 -> nth_error (thr s1) t = Some (TSub (PPrefix "") SStart got0) ->
+  let s2 := run cfg sch2 s1 in
+  all_done s2 = true ->
+  reachable_queued s2 = [] /\ Permutation (appended s2) (delivered s2) /\ NoDup (delivered s2).
+Proof.
+  intros HA HL F s1 Qs Ht s2 D.
+  assert (W1 : wf s1).
+  { apply (run_invariant cfg wf); [intros; eapply wf_step; eauto|]. apply init_wf; auto. }
+  assert (DI : drain_inv t (PPrefix "") s2).
+  { apply (run_invariant cfg (drain_inv t (PPrefix ""))); [intros; eapply drain_step; eauto|].
+    constructor; auto. exists SStart, got0. simpl. auto. }
+  destruct DI as [_ _ [pc [got [Ht2 I]]]].
+  assert (pc = SDone).
+  { unfold all_done in D. rewrite forallb_forall in D. specialize (D _ (nth_error_In _ _ Ht2)).
+    destruct pc; simpl in D; try discriminate. reflexivity. }
+  subst pc. simpl in I.
+  assert (R : reachable_queued s2 = []).
+  { unfold reachable_queued. apply flat_map_nil. intros [c q] Hin. simpl. apply (I c q); [exact Hin|intros []|destruct c; reflexivity]. }
+  assert (E : s2 = run cfg (sch1 ++ sch2) (init pre ths)) by (unfold s2, s1; rewrite run_app; reflexivity).
+  pose proof (exactly_once_at_end cfg pre ths (sch1 ++ sch2) HA F) as X. cbv zeta in X. rewrite <- E in X.
+  destruct (X D) as [P [N _]]. rewrite R, app_nil_r in P. auto.
+Qed.
+
 (* ---------------------------------------------------------------------------------- *)
 (* the concrete losing schedule of the non-atomic variant                              *)
 
